@@ -49,6 +49,15 @@ All theorems are about `FeatModel.Refine.refine` / `fineIdx` / `simpleTargets`, 
 `drv_c10` executes against the real `StandardRefinery`, interpreting the tables `FeatModel.Gen.Refine.*` that are
 regenerated from the FEAT sources on every run.  Helper lemmas are in `Lemmas/C10*.lean`.
 
+Unbounded modelling (tied to the C++ only by the correspondence run, in particular its `boundary-sizes` sub-stream):
+`Index` (64-bit unsigned: entity numbers, counts, the offset arithmetic `ioq + 4*c_q[k] + …`, target sets) is an
+unbounded `Nat`; `int` (local face numbers, orientation codes, `SubIndexMapping::_cell_orient[]`) is `Nat`/`Int`;
+`std::vector<int>` masks and adjacency counters of `BoundaryFaceComputer` and the `Index shared_by[2]` scratch of
+`FacetNeighbors` are `Nat`/`Bool`/lists; coordinates and attributes are exact rationals (`Q`).  No narrower integer
+type, fixed-size scratch buffer, blocking factor or size threshold was found in the anchored sources; the
+`boundary-sizes` stream nevertheless crosses 2^7, 2^8, 1000 (quick) and 2^15, 2^16 (thorough) in entity counts and
+indices, with re-oriented cells, reversed sub-entities and attached mesh parts at the highest indices.
+
 Full statement and what is proved:
 * `C10.FullStatement` (global lift of conformity for dim 1..3): PROVED for `dim = 2` (`C10.global_lift_2d`, any mesh
   size, triangles and quadrilaterals, + histories) and for `dim = 1` (`C10.global_lift_1d`); for `dim = 3` the
@@ -501,6 +510,33 @@ theorem C10.part_vertex_follows_parent (M : Mesh) (hd : M.dim ≤ 3) (hv : M.ver
     refine ⟨s, t, by omega, hsd, ht, ?_⟩
     simp only [h1, Nat.mul_one, Nat.add_zero]
     exact fineVerts_child M (by omega) hv s t (by omega) hsd hr hts
+
+/-! ### the mesh-node tree (`RootMeshNode::refine_unique`, `MeshPartNode::refine`) -/
+
+/-- **tree refinement of a part = `StandardRefinery<MeshPart>` of the part, for every dimension signature**: the
+    model of `MeshPartNode::refine` returns, for the node's part, exactly `refinePart M part` (no shortcut such as an
+    un-refined clone for parts without facets), and for every nested child part exactly `refinePart` against the
+    coarse parent part.  The driver executes `refineNode`; the correspondence stream refines mesh parts through the
+    real `RootMeshNode` tree (all dimension signatures, nested child parts, attributes, twice). -/
+theorem C10.tree_refinement_is_standard_refinery (M : Mesh) (n n' : PartNode) (h : refineNode M n = some n') :
+    refinePart M n.part = some n'.part ∧
+    ∀ ch' ∈ n'.children, ∃ ch ∈ n.children, refinePart (n.part.asParent M.kind M.dim) ch = some ch' :=
+  ⟨refineNode_part M n n' h, refineNode_children M n n' h⟩
+
+/-- `part_follows_parent` lifted to the tree: for a node whose part has no own topology — whatever dimensions carry
+    entities — every entity of dimension `c ≥ 1` of the tree-refined part is attached to a row the index refiner
+    generated for the parent entity of its coarse entity, and the refined target set has the full child count
+    `Σ_s |target s|·refCount s c` (so it is never the un-refined clone when the part has an entity with children) -/
+theorem C10.tree_part_follows_parent (M : Mesh) (hd : M.dim ≤ 3) (n n' : PartNode) (h : refineNode M n = some n')
+    (ht : n.part.topo = none) (c f : Nat) (hfc : f < c) (hc : c ≤ M.dim)
+    (hP : ∀ s, ∀ t ∈ n.part.target s, t < M.num s) :
+    (n'.part.target c).length =
+      ((List.range' c (M.dim + 1 - c)).map fun s => (n.part.target s).length * refCount M.kind s c).sum ∧
+    ∀ x ∈ n'.part.target c, ∃ s t j, c ≤ s ∧ s ≤ M.dim ∧ t ∈ n.part.target s ∧ j < refCount M.kind s c ∧
+      ((refine M).idx c f)[x]? = (childRows M s c f t)[j]? := by
+  have hp := refinePart_simple M n.part n'.part ht (refineNode_part M n n' h) c hc
+  rw [hp]
+  exact ⟨simpleTargets_length M n.part c, fun x hx => C10.part_follows_parent M hd n.part c f x hfc hP hx⟩
 
 /-- and all children are covered exactly once per part entity: the refined target set of dimension `c` has
     `Σ_s |target s| · refCount s c` entries -/
